@@ -604,6 +604,7 @@ package flyt
 //@   ensures [C15] !panicked ==> isStr(r.value) && x == r.value.(string)
 //@   ensures [C15] panicked ==> !isStr(r.value)
 //@ func (*SharedStore).GetString(s, key) (x)
+//@   nopanic [C15]
 //@   requires s != nil
 //@   ghost nGet int = 0
 //@   on call (*SharedStore).Get(ss, k) returns (gv, gok)
@@ -612,6 +613,7 @@ package flyt
 //@   ensures [C13] nGet == 1
 //@   ensures [C15] x == (has(s.data, key) && isStr(s.data[key]) ? s.data[key].(string) : "")
 //@ func (*SharedStore).GetStringOr(s, key, d) (x)
+//@   nopanic [C15]
 //@   requires s != nil
 //@   ghost nGet int = 0
 //@   on call (*SharedStore).Get(ss, k) returns (gv, gok)
@@ -628,6 +630,7 @@ package flyt
 //@   ensures [C15] !panicked ==> isNum(r.value) && x == intOf(r.value)
 //@   ensures [C15] panicked ==> !isNum(r.value)
 //@ func (*SharedStore).GetInt(s, key) (x)
+//@   nopanic [C15]
 //@   requires s != nil
 //@   ghost nGet int = 0
 //@   on call (*SharedStore).GetIntOr(ss, k, d) returns (gv)
@@ -636,6 +639,7 @@ package flyt
 //@   ensures [C13] nGet == 1
 //@   ensures [C15] x == (has(s.data, key) && isNum(s.data[key]) ? intOf(s.data[key]) : 0)
 //@ func (*SharedStore).GetIntOr(s, key, d) (x)
+//@   nopanic [C15]
 //@   requires s != nil
 //@   ghost nGet int = 0
 //@   on call (*SharedStore).Get(ss, k) returns (gv, gok)
@@ -652,6 +656,7 @@ package flyt
 //@   ensures [C15] !panicked ==> isNum(r.value) && x == floatOf(r.value)
 //@   ensures [C15] panicked ==> !isNum(r.value)
 //@ func (*SharedStore).GetFloat64(s, key) (x)
+//@   nopanic [C15]
 //@   requires s != nil
 //@   ghost nGet int = 0
 //@   on call (*SharedStore).GetFloat64Or(ss, k, d) returns (gv)
@@ -660,6 +665,7 @@ package flyt
 //@   ensures [C13] nGet == 1
 //@   ensures [C15] x == (has(s.data, key) && isNum(s.data[key]) ? floatOf(s.data[key]) : fzero())
 //@ func (*SharedStore).GetFloat64Or(s, key, d) (x)
+//@   nopanic [C15]
 //@   requires s != nil
 //@   ghost nGet int = 0
 //@   on call (*SharedStore).Get(ss, k) returns (gv, gok)
@@ -676,6 +682,7 @@ package flyt
 //@   ensures [C15] !panicked ==> isBoolV(r.value) && x == r.value.(bool)
 //@   ensures [C15] panicked ==> !isBoolV(r.value)
 //@ func (*SharedStore).GetBool(s, key) (x)
+//@   nopanic [C15]
 //@   requires s != nil
 //@   ghost nGet int = 0
 //@   on call (*SharedStore).GetBoolOr(ss, k, d) returns (gv)
@@ -684,6 +691,7 @@ package flyt
 //@   ensures [C13] nGet == 1
 //@   ensures [C15] x == (has(s.data, key) && isBoolV(s.data[key]) ? s.data[key].(bool) : false)
 //@ func (*SharedStore).GetBoolOr(s, key, d) (x)
+//@   nopanic [C15]
 //@   requires s != nil
 //@   ghost nGet int = 0
 //@   on call (*SharedStore).Get(ss, k) returns (gv, gok)
@@ -700,6 +708,7 @@ package flyt
 //@   ensures [C15] !panicked ==> isMapV(r.value) && x == r.value.(map[string]any)
 //@   ensures [C15] panicked ==> !isMapV(r.value)
 //@ func (*SharedStore).GetMap(s, key) (x)
+//@   nopanic [C15]
 //@   requires s != nil
 //@   ghost nGet int = 0
 //@   on call (*SharedStore).GetMapOr(ss, k, d) returns (gv)
@@ -708,6 +717,7 @@ package flyt
 //@   ensures [C13] nGet == 1
 //@   ensures [C15] x == (has(s.data, key) && isMapV(s.data[key]) ? s.data[key].(map[string]any) : nil)
 //@ func (*SharedStore).GetMapOr(s, key, d) (x)
+//@   nopanic [C15]
 //@   requires s != nil
 //@   ghost nGet int = 0
 //@   on call (*SharedStore).Get(ss, k) returns (gv, gok)
@@ -776,6 +786,7 @@ package flyt
 //@   ensures [C15] !panicked ==> nAS == 1 && aok && x == as
 //@   ensures [C15] panicked ==> nAS == 1 && !aok
 //@ func (*SharedStore).GetSliceOr(s, key, d) (x)
+//@   nopanic [C15]
 //@   requires s != nil
 //@   ghost nGet int = 0
 //@   on call (*SharedStore).Get(ss, k) returns (gv, gok)
@@ -791,6 +802,7 @@ package flyt
 //@   ensures [C15] has(s.data, key) && isType(s.data[key], []any) ==> x == s.data[key].([]any)
 //@   ensures [C15] has(s.data, key) && isSliceV(s.data[key]) && !isType(s.data[key], []any) ==> nTS == 1 && x == ts
 //@ func (*SharedStore).GetSlice(s, key) (x)
+//@   nopanic [C15]
 //@   requires s != nil
 //@   havoc alloc
 //@   ghost nG int = 0; gs []any = slice(0, 0, 0, 0)
@@ -811,15 +823,12 @@ package flyt
 // bindSpec: the documented outcome of binding value v into dest (err is the returned error, p0/p1 the pointee before/after)
 //@ spec func bindSpec(v any, dest any, err error, p0 any, p1 any) bool = (v == nil || !okDest(dest) ==> err != nil && p1 == p0) && (v != nil && okDest(dest) && typ(v) == elemType(typ(dest)) ==> err == nil && p1 == v) && (v != nil && okDest(dest) && typ(v) != elemType(typ(dest)) && jsonEncErr(v) != nil ==> err != nil && Is(err, jsonEncErr(v)) && p1 == p0) && (v != nil && okDest(dest) && typ(v) != elemType(typ(dest)) && jsonEncErr(v) == nil ==> p1 == jsonDec(jsonEnc(v), dest, p0) && (jsonDecErr(jsonEnc(v), dest, p0) == nil <==> err == nil) && (jsonDecErr(jsonEnc(v), dest, p0) != nil ==> Is(err, jsonDecErr(jsonEnc(v), dest, p0))))
 //@ func Result.Bind(r, dest) (err)
+//@   nopanic [C16]
 //@   assigns [C16] pointee(dest)
 //@   ensures [C16] bindSpec(r.value, dest, err, old(pointee(dest)), pointee(dest))
 //@ func (*SharedStore).Bind(s, key, dest) (err)
+//@   nopanic [C16]
 //@   requires s != nil
-//@   ghost nGet int = 0
-//@   on call (*SharedStore).Get(ss, k) returns (gv, gok)
-//@     requires [C13] nGet == 0 && ss == s && k == key
-//@     effect nGet++
-//@   ensures [C13] nGet == 1
 //@   assigns [C16] pointee(dest)
 //@   ensures [C16] !has(s.data, key) ==> err != nil && pointee(dest) == old(pointee(dest))
 //@   ensures [C16] has(s.data, key) && s.data[key] != nil ==> bindSpec(s.data[key], dest, err, old(pointee(dest)), pointee(dest))
